@@ -488,6 +488,81 @@ func init() {
 			r.Distinct(fmt.Sprint(trace))
 		}
 
+		// ---- chains of complete exchanges on one client (one cookie each, so that every call re-keys):
+		// each exchange must be judged and used on its own, nothing of an earlier one may survive
+		type link struct {
+			name   string
+			server string
+			port   uint16
+			algo   int // 15, another value, or -1: no algorithm record
+		}
+		links := []link{{"named-server-and-port", other, 10555, 15}, {"defaults", "", 0, 15}, {"named-port", "", 4123, 15}, {"named-server", other, 0, 15},
+			{"no-algorithm-record", "", 0, -1}, {"other-algorithm", "", 0, 17}, {"named-then-no-algorithm", other, 777, -1}}
+		for ci := 0; ci < r.Pick(80, 3000); ci++ {
+			cid := fmt.Sprintf("k%d", ci)
+			if r.Only() != "" && r.Only() != cid {
+				continue
+			}
+			f := c20NewFetcher(srvAP)
+			var trace []string
+			for step := 0; step < 2+rng.IntN(4); step++ {
+				lk := links[rng.IntN(len(links))]
+				if step == 0 {
+					lk = links[rng.IntN(4)]
+				}
+				c := &c20Case{class: "chain:" + lk.name, closeA: -1, stream: func(conn int) []byte {
+					if lk.algo == -1 {
+						b := peer.KERecord(1, true, []byte{0, 0})
+						if lk.server != "" {
+							b = append(b, peer.KERecord(6, false, []byte(lk.server))...)
+						}
+						if lk.port != 0 {
+							b = append(b, peer.KERecord(7, false, []byte{byte(lk.port >> 8), byte(lk.port)})...)
+						}
+						b = append(b, peer.KERecord(5, false, peer.TaggedCookie(conn, 0, 100))...)
+						return append(b, peer.KERecord(0, true, nil)...)
+					}
+					return peer.KEMessage(uint16(lk.algo), lk.server, lk.port, c20Cookies(conn, 1))
+				}}
+				d, err, conn := exchange(f, c)
+				r.Eval(1)
+				trace = append(trace, fmt.Sprintf("%s -> err=%v newconn=%v server=%s port=%d", lk.name, err, conn != nil, d.Server, d.Port))
+				w := map[string]any{"chain": trace}
+				if conn == nil {
+					r.Violation("Fetcher.FetchData|wrong-value:empty pool did not lead to a new key exchange|chain", cid, w)
+					break
+				}
+				if lk.algo != 15 {
+					if err == nil {
+						r.Violation("Fetcher.FetchData|wrong-value:key exchange succeeded although it must be refused: algorithm is not AES-SIV-CMAC-256|chain:"+lk.name+" after earlier successes", cid, w)
+						break
+					}
+					continue
+				}
+				if err != nil {
+					r.Violation("Fetcher.FetchData|wrong-value:conformant key exchange refused|chain:"+lk.name, cid, w)
+					break
+				}
+				wantSrv, wantPort := srvAddr.String(), uint16(123)
+				if lk.server != "" {
+					wantSrv = lk.server
+				}
+				if lk.port != 0 {
+					wantPort = lk.port
+				}
+				if d.Server != wantSrv || d.Port != wantPort {
+					r.Violation("Fetcher.FetchData|wrong-value:NTP server or port is not the one named in this exchange (or the default)|chain:"+lk.name+" after earlier exchanges", cid, w)
+					break
+				}
+				if !bytes.Equal(d.C2sKey, conn.C2S) || !bytes.Equal(d.S2cKey, conn.S2C) || len(d.Cookie) != 1 || !bytes.Equal(d.Cookie[0], peer.TaggedCookie(conn.ID, 0, 100)) {
+					r.Violation("Fetcher.FetchData|wrong-value:keys or cookies are not those of this exchange|chain:"+lk.name, cid, w)
+					break
+				}
+				r.Class("chain-step:" + lk.name)
+			}
+			r.Distinct(fmt.Sprint(trace))
+		}
+
 		// ---- the NTP request after the exchange goes to the named server and port
 		if r.Only() == "" {
 			for _, named := range []bool{false, true} {
@@ -538,6 +613,7 @@ func init() {
 			}
 		}
 		srv.Close()
+		c20RealServer(r)
 		r.Sample(map[string]any{"conformant_stream": ev.Hex(mkValid(2, "", 0)(1)), "meaning": "next-protocol, algorithm 15, two cookies, end-of-message"})
 		r.Assume("server records carry IP literals (no resolver in the sandbox); TLS 1.3 with a self-signed certificate and InsecureSkipVerify")
 		r.Assume("verdict 'either' (not judged beyond crash-freedom): warning records, records of unusual length, anything after a non-canonical record")
@@ -547,4 +623,100 @@ func init() {
 			"and the real IP client's first NTP request after the exchange. Oracle: success only when the statement allows it and always when it demands it; keys = the server's exporter values; pool = cookies issued, in order, without reconnecting; "+
 			"server/port as named or default; every attempt after a failure opens a new connection and uses only its data. distinct_nontrivial = distinct (class, stream, segmentation) and distinct sequences", 12)
 	})
+}
+
+// c20RealServer: the monitor as NTS-KE client of the project's own NTS-KE server (child
+// process), with several algorithm offers. Agreement is observed behaviourally: a request
+// authenticated with the client's exporter C2S key and a cookie from the exchange must be
+// answered by the NTP listener with a reply that verifies under the client's S2C key.
+func c20RealServer(r *ev.Run) {
+	if r.Only() != "" {
+		return
+	}
+	srvIP, cliIP := blockIP(r, 20, 31), blockIP(r, 20, 32)
+	tgt, err := StartTarget("plain", "-ip", srvIP.String(), "-kinds", "ip,ntske")
+	if err != nil {
+		r.Inconclusive("target: " + err.Error())
+		return
+	}
+	defer tgt.Kill()
+	uc, err := peer.NewUDPClient(cliIP)
+	if err != nil {
+		r.Inconclusive(err.Error())
+		return
+	}
+	defer uc.Close()
+	offers := [][]uint16{{15}, {15, 17}, {17, 15}, {30, 17, 15}, {15, 15}, {1, 2, 3, 15}}
+	for round := 0; round < r.Pick(3, 40); round++ {
+		for _, offer := range offers {
+			id := fmt.Sprintf("real.%v", offer)
+			conn, err := tls.DialWithDialer(&net.Dialer{Timeout: 3 * time.Second}, "tcp", netip.AddrPortFrom(srvIP, 4460).String(),
+				&tls.Config{InsecureSkipVerify: true, NextProtos: []string{"ntske/1"}, MinVersion: tls.VersionTLS13})
+			if err != nil {
+				r.Inconclusive("dial the target's NTS-KE server: " + err.Error())
+				return
+			}
+			_ = conn.SetDeadline(time.Now().Add(5 * time.Second))
+			var body []byte
+			for _, a := range offer {
+				body = append(body, byte(a>>8), byte(a))
+			}
+			req := append(append(peer.KERecord(1, true, []byte{0, 0}), peer.KERecord(4, true, body)...), peer.KERecord(0, true, nil)...)
+			_, _ = conn.Write(req)
+			var resp []byte
+			buf := make([]byte, 4096)
+			for {
+				n, err := conn.Read(buf)
+				resp = append(resp, buf[:n]...)
+				if err != nil || (len(resp) >= 4 && bytes.HasSuffix(resp, []byte{0x80, 0, 0, 0})) {
+					break
+				}
+			}
+			cs := conn.ConnectionState()
+			s2c, _ := cs.ExportKeyingMaterial("EXPORTER-network-time-security", []byte{0, 0, 0, 15, 1}, 32)
+			c2s, _ := cs.ExportKeyingMaterial("EXPORTER-network-time-security", []byte{0, 0, 0, 15, 0}, 32)
+			conn.Close()
+			r.Eval(1)
+			j := c20Judge(resp)
+			w := map[string]any{"offer": offer, "server_message": ev.Hex(resp)}
+			if j.verdict != c20MustSucceed || len(j.cookies) != 8 {
+				r.Violation("ntske-tls-server|wrong-reply:server message is not next-protocol, AES-SIV-CMAC-256, 8 cookies, end of message|offer with several algorithms", id, w)
+				continue
+			}
+			port := j.port
+			if port == 0 {
+				port = 123
+			}
+			dst := netip.AddrPortFrom(srvIP, port)
+			if j.server != "" {
+				if a, err := netip.ParseAddr(j.server); err == nil {
+					dst = netip.AddrPortFrom(a, port)
+				}
+			}
+			ok := 0
+			for ci, ck := range j.cookies {
+				if ci > 2 {
+					break
+				}
+				hdr := peer.NTPRequest(peer.UniqueTime64())
+				uid := randBytes(rand.New(rand.NewPCG(uint64(round), uint64(ci))), 32)
+				_ = uc.Send(dst, peer.NTSRequest(hdr, uid, ck, 0, c2s))
+				tx := binary.BigEndian.Uint64(hdr[40:])
+				_, hit := uc.ReadUntil(3*time.Second, func(d peer.Datagram) bool { return peer.NTPOrigin(d.Data) == tx })
+				if hit == nil {
+					r.Violation("ntske-tls-server|wrong-value:request under the client's exporter key and an issued cookie is not answered (keys in the cookie differ)|offer "+fmt.Sprint(len(offer))+" algorithms, 15 "+map[bool]string{true: "first", false: "not first"}[offer[0] == 15], id, w)
+					break
+				}
+				if _, problem := peer.NTSOpenResponse(hit.Data, s2c, uid); problem != "" {
+					w["problem"] = problem
+					r.Violation("ntske-tls-server|wrong-value:reply does not verify under the client's exporter key|offer", id, w)
+					break
+				}
+				ok++
+			}
+			if ok > 0 {
+				r.Class(fmt.Sprintf("real-server-agreement:offer-of-%d,15-first=%v", len(offer), offer[0] == 15))
+			}
+		}
+	}
 }
